@@ -7,7 +7,11 @@ GEN_FILES = ['Grammars']
 THEOREM_NAMES = ['run_fuel_mono', 'input_rt', 'output_fluor_rt', 'input_fluor_rejected', 'reporter_rt', 'reporter_arity_rejected',
                  'inputfanout_rt', 'seesaw_rt', 'wireconc_rt', 'negative_conc_rejected', 'input_ident_rt', 'output_wire_rt',
                  'input_wire_f_rt', 'gateO_conc_rt', 'gateI_conc_rt', 'thO_conc_rt', 'wireconc_decimal_rt', 'seesawOR_rt', 'seesawAND_rt',
-                 'seesaw_missing_list_rejected', 'reporter_comment_rt', 'two_statements_rt']
+                 'seesaw_missing_list_rejected', 'reporter_comment_rt', 'two_statements_rt',
+                 'document_rt', 'document_leading_rt', 'document_open_rt', 'stmtText_reporter', 'stmtText_input', 'stmtText_input_ident',
+                 'stmtText_input_wire_f', 'stmtText_output_fluor', 'stmtText_output_wire', 'stmtText_seesaw', 'stmtText_inputfanout',
+                 'stmtText_seesawOR', 'stmtText_seesawAND', 'stmtText_wireconc', 'stmtText_wireconc_decimal', 'stmtText_gateO_conc',
+                 'stmtText_gateI_conc', 'stmtText_thO_conc']
 THEOREMS = ['Dsd.C19.' + t for t in THEOREM_NAMES]
 ASSUMPTIONS = [
     'pyparsing 3.3.2 is modelled by a hand-written interpreter (Model/Pyparsing.lean); the seesaw grammar term (Gen/Grammars.lean: '
@@ -20,9 +24,12 @@ MANIFEST = {
             'Proved for the regenerated grammar, for numbers of any length, brace lists of any length and any amount of blanks: every '
             'statement kind - input_rt, input_ident_rt, input_wire_f_rt, output_fluor_rt, output_wire_rt, reporter_rt, inputfanout_rt, '
             'seesaw_rt, seesawOR_rt, seesawAND_rt, wireconc_rt, wireconc_decimal_rt, gateO/gateI/thO_conc_rt -, a trailing comment without '
-            'final newline, two_statements_rt (document = concatenation for two statements), and the rejections input_fluor_rejected, '
-            'reporter_arity_rejected, negative_conc_rejected, seesaw_missing_list_rejected. Arbitrary layouts (blanks at every position), '
-            'scientific concentrations, thI, documents of more than two statements and files are NOT theorems: they are decided on the real parser by a reference renderer, '
+            'final newline, and the rejections input_fluor_rejected, reporter_arity_rejected, negative_conc_rejected, '
+            'seesaw_missing_list_rejected. DOCUMENTS: document_rt - for ANY non-empty list of statement texts satisfying StmtText (proved '
+            'for every statement kind: the 15 stmtText_* instances), each followed by its line end and any number of blank lines, the '
+            'document parses to the list of the statements\' trees (concatenation, in order); document_leading_rt (leading blank lines), '
+            'document_open_rt (no final newline). Arbitrary layouts (blanks at every position), scientific concentrations, thI and '
+            'files are NOT theorems: they are decided on the real parser by a reference renderer, '
             'and the model is compared with pyparsing on the same texts, the systematic negative family and random mutations.',
     'note': 'pyparsing semantics is modelled by hand and tied by differential testing only.',
     'technique': 'Lean 4 symbolic execution of a pyparsing interpreter over the grammar regenerated from source (induction on list length); correspondence check; reference renderer oracle',
